@@ -31,6 +31,7 @@ W int v_atoi(const char *a) { return atoi(a); }
 W long long v_atoll(const char *a) { return atoll(a); }
 W int v_vsnprintf(char *b, size_t n, const char *f, va_list ap) { return vsnprintf(b, n, f, ap); }
 W int v_snprintf(char *b, size_t n, const char *f, ...) { va_list ap; int r; va_start(ap, f); r = vsnprintf(b, n, f, ap); va_end(ap); return r; }
+W int v_sscanf(const char *s, const char *f, ...) { va_list ap; int r; va_start(ap, f); r = vsscanf(s, f, ap); va_end(ap); return r; }
 W FILE *v_fopen(const char *p, const char *m) { return fopen(p, m); }
 W int v_fclose(FILE *f) { return fclose(f); }
 W int v_fflush(FILE *f) { return fflush(f); }
